@@ -72,6 +72,10 @@ def make_items():
     items.append(('samp', 2 ** 64 - 1, tuple(WORDS[3:11]), None))
     # a sample that overlaps a call of the same thread without nesting: read.START sample.START ... read.END sample.END
     items.append(('samp-cross', 5, tuple(WORDS[2:10]), None))
+    # null words are frames like any other: at the end of a data record, as the last counted frame, as a whole tail
+    items.append(('samp', 4, (0x1001, 0, 0x2001, 0), None))
+    items.append(('samp', 7, (0x1001, 0, 0, 0, 0x2001, 0, 0x3000, 0), None))
+    items.append(('samp', 8, (0x1001, 0x2001, 0, 0, 0, 0, 0, 0), None))
     # un-map records are not announcements
     items.append(('unmap', 0x2001, 1, [img_event(0x2001, 1, kind='DYLD_uuid_unmap_a')]))
     items.append(('unmap', 0x0800, 0, [img_event(0x0800, 0, kind='DYLD_uuid_unmap_a')]))
